@@ -43,7 +43,14 @@ def new_context_rule(ctx: Ctx, rid: str) -> None:
         ctx.ok("new_context", detail={"function": "runtime.new_context", "paths": len(fa.final)})
     # the locals loop must exist and skip `missing`
     src = ast.unparse(fi.node)
-    ctx.check("if value is not missing" in src and "parent[key] = value" in src, "locals-merge", "runtime:new_context", "locals merge", "locals must be merged into the child context, skipping `missing` values", fi.loc())
+    ok_lm = False
+    for lp in [l for l in ast.walk(fi.node) if isinstance(l, ast.For) and ast.unparse(l.iter) == "locals.items()" and isinstance(l.target, ast.Tuple) and len(l.target.elts) == 2 and all(isinstance(e_, ast.Name) for e_ in l.target.elts)]:
+        kn_, vn_ = (e_.id for e_ in lp.target.elts)  # type: ignore[attr-defined]
+        for a_ in ast.walk(lp):
+            # stored under the (possibly shortened) key, on the path where the value is not `missing`
+            if isinstance(a_, ast.Assign) and len(a_.targets) == 1 and isinstance(a_.targets[0], ast.Subscript) and ast.unparse(a_.targets[0].value) == "parent" and ast.unparse(a_.value) == vn_:
+                ok_lm = ok_lm or (f"{vn_} is missing", False) in astq.guard_atoms(fi.node, a_)
+    ctx.check(ok_lm, "locals-merge", "runtime:new_context", "locals merge", "locals must be merged into the child context, skipping `missing` values", fi.loc())
     ctx.check("dict(globals or (), **vars)" in src, "globals-merge", "runtime:new_context", "globals under vars", "a non-shared context must be built from the template globals overlaid with the passed variables", fi.loc())
     dv = ctx.repo.func("runtime:Context.derived")
     s = ast.unparse(dv.node)
